@@ -417,6 +417,9 @@ func runProp(prop, tier string, workers int, debug bool, only string, noReplay b
 			h.Arch = "riscv64"
 		}
 		for _, a := range shapesFor(h, tier) {
+			if f := os.Getenv("VERIF_SHAPE"); f != "" && f != strings.Trim(strings.ReplaceAll(fmt.Sprint(a), " ", ","), "[]") {
+				continue // debugging aid: run one shape only
+			}
 			jobs = append(jobs, job{h, a})
 			arches[h.Arch] = true
 		}
